@@ -183,6 +183,9 @@ def run(ctx: core.Ctx) -> None:
     core.model_check(ctx, "Batch", defines=dict(d, Pin="TRUE"), label="Batch-cache-pins-its-keys")
     core.model_check(ctx, "Batch", defines=dict(d, Cap="2", Pin="TRUE"), label="Batch-cache-pins-its-keys-cap2")
     core.model_check(ctx, "Batch", defines=dict(d, Pin="FALSE"), label="Batch-cache-keyed-by-bare-address", expect_violation=True)
+    # unbounded: an inductive invariant of the pinned cache (any number of operations), and its failure without pinning
+    core.apalache_inductive(ctx, "MC_BatchApa", label="Batch-pinned-cache-inductive-invariant")
+    core.apalache_inductive(ctx, "MC_BatchApaNoPin", label="Batch-bare-address-cache-not-inductive", expect_step_failure=True)
     core.run_stage(ctx, S("batch-versus-alone", batch_case, batches(rng, 6 if q else 60, 150 if q else 400, q)))
     rx = [r["rsmi"] for r in chem.corpus()]
     same = []
